@@ -19,7 +19,7 @@ func init() { checks["C18"] = c18 }
 func c18(args []string) {
 	c := chk.New("C18", "exploration", args)
 	c.Build(false)
-	c.Rule("src(n) -> 1 or 2 upstream processes (random task durations) -> recorder -> StreamToSubStream -> task with {i:x|join:SEP}: sub-stream lengths {0,1,2,B,B+1,3B} for SCIPIPE_BUFSIZE B in {1,3} (thorough also 128), separators {' ', ',', ':', ' -I '} (and, printed by printf, separators containing a newline; the same joined port used three times in one command with different modifiers; a Go function writing through OutIP().Write() in a task with a joined in-port; two sub-streams reaching one joined in-port with default output names), maxConcurrentTasks in {1,4}; without modifiers the task command is vcmd, which opens every path it was given from its working directory; with modifiers (%.txt, s/x/y/, basename) the command is an echo and only the strings are judged; oracle: exactly one start event of the joining process, the member paths in its argv == the sequence the recorder in front of the sub-stream saw (arrival order), all readable, the recorded command contains them joined by exactly SEP with modifiers applied to each member, audit Upstream keys == member paths and each names the upstream task; plus close storms: 2-8 one-file sources fan into a StreamToSubStream, built and run 1500-3000 times inside one child process (hooks passive in most of them) - exactly one sub-stream must come out per run. distinct_nontrivial = distinct (length, B, separator, modifiers, fan-in, config) cases")
+	c.Rule("src(n) -> 1 or 2 upstream processes (random task durations) -> recorder -> StreamToSubStream -> task with {i:x|join:SEP}: sub-stream lengths {0,1,2,B,B+1,3B} for SCIPIPE_BUFSIZE B in {1,3} (thorough also 128), separators {' ', ',', ':', ' -I '} (and, printed by printf, separators containing a newline; the same joined port used three times in one command with different modifiers; a Go function writing through OutIP().Write() in a task with a joined in-port; two sub-streams reaching one joined in-port with default output names; the same file arriving twice on one sub-stream), maxConcurrentTasks in {1,4}; without modifiers the task command is vcmd, which opens every path it was given from its working directory; with modifiers (%.txt, s/x/y/, basename) the command is an echo and only the strings are judged; oracle: exactly one start event of the joining process, the member paths in its argv == the sequence the recorder in front of the sub-stream saw (arrival order), all readable, the recorded command contains them joined by exactly SEP with modifiers applied to each member, audit Upstream keys == member paths and each names the upstream task; plus close storms: 2-8 one-file sources fan into a StreamToSubStream, built and run 1500-3000 times inside one child process (hooks passive in most of them) - exactly one sub-stream must come out per run. distinct_nontrivial = distinct (length, B, separator, modifiers, fan-in, config) cases")
 	c.Assume("with two upstream processes the arrival order is whatever the recorder saw; it is not predicted")
 	rng := c.Rand("c18")
 	type job struct {
@@ -350,7 +350,7 @@ func c18corners(c *chk.Ctx) {
 	}
 	var jobs []*job
 	for _, n := range []int{1, 3, 5} {
-		for _, kind := range []string{"newline", "newline-space", "twice", "gofunc", "two-substreams"} {
+		for _, kind := range []string{"newline", "newline-space", "twice", "gofunc", "two-substreams", "duplicate-members"} {
 			jobs = append(jobs, &job{n, kind, []int{1, 3}[n%2]})
 		}
 	}
@@ -380,6 +380,10 @@ func c18corners(c *chk.Ctx) {
 		case "twice":
 			sep = ","
 			jn.Cmd = "echo J:{i:in|join:,}:J K:{i:in|join:,|s/U/V/}:K L:{i:in|join:,|basename}:L > {o:out}"
+		case "duplicate-members":
+			// the same file arrives twice on the sub-stream (the source lists it twice): members keep their arrival order
+			sep = ","
+			jn.Cmd = "echo {i:in|join:,} > {o:out}"
 		case "gofunc":
 			// a Go function that writes its output through OutIP().Write() in a task with a joined in-port
 			jn.Kind = spec.KGoFunc
@@ -392,6 +396,15 @@ func c18corners(c *chk.Ctx) {
 		}
 		s.Procs = append(s.Procs, jn)
 		s.Conns = append(s.Conns, &spec.Conn{From: "src.out", To: "U.in"}, &spec.Conn{From: "U.out", To: "REC.in"}, &spec.Conn{From: "REC.out", To: "SS.in"}, &spec.Conn{From: "SS.substream", To: "JN.in"})
+		if j.kind == "duplicate-members" {
+			// sources straight into the recorder; the first file once more after the second and at the end
+			fs := append([]string{}, src.Files...)
+			fs = append(fs[:imin(2, len(fs))], append([]string{fs[0]}, fs[imin(2, len(fs)):]...)...)
+			fs = append(fs, fs[0])
+			src.Files = fs
+			s.Procs = []*spec.Proc{src, s.Proc("REC"), s.Proc("SS"), jn}
+			s.Conns = []*spec.Conn{{From: "src.out", To: "REC.in"}, {From: "REC.out", To: "SS.in"}, {From: "SS.substream", To: "JN.in"}}
+		}
 		if j.kind == "two-substreams" {
 			s.Procs = append(s.Procs, &spec.Proc{Name: "U2", Kind: spec.KCmd, Cmd: spec.BuildCmd("U2", []spec.PortDecl{{Name: "in"}}, []spec.PortDecl{{Name: "out"}}, nil, nil, nil),
 				Outs: []*spec.Out{{Port: "out", Pattern: "ud2/{i:in|basename}.U2.out"}}}, &spec.Proc{Name: "SS2", Kind: spec.KSubStream})
@@ -462,11 +475,15 @@ func c18corners(c *chk.Ctx) {
 			base = append(base, "../"+filepath.Base(m))
 		}
 		want := strings.Join(plain, sep) + "\n"
+		nmembers := j.n
+		if j.kind == "duplicate-members" {
+			nmembers = j.n + 2
+		}
 		if j.kind == "twice" {
 			want = "J:" + strings.Join(plain, ",") + ":J K:" + strings.Join(subst, ",") + ":K L:" + strings.Join(base, ",") + ":L\n"
 		}
 		b, _ := os.ReadFile(filepath.Join(res.Wd, "joined.out"))
-		if string(b) != want || len(arrived) != j.n {
+		if string(b) != want || len(arrived) != nmembers {
 			c.Violation("joined-string", fmt.Sprintf("%s, %d members: the command printed %q, expected %q", j.kind, j.n, clip(string(b), 300), clip(want, 300)), desc)
 			return
 		}
@@ -480,7 +497,15 @@ func c18corners(c *chk.Ctx) {
 			ks = append(ks, k)
 		}
 		sort.Strings(ks)
-		as := append([]string{}, arrived...)
+		// Upstream is keyed by path: a file that arrived twice is one key
+		seenM := map[string]bool{}
+		var as []string
+		for _, m := range arrived {
+			if !seenM[m] {
+				seenM[m] = true
+				as = append(as, m)
+			}
+		}
 		sort.Strings(as)
 		if strings.Join(ks, "\x00") != strings.Join(as, "\x00") {
 			c.Violation("joined-audit-upstream-keys", fmt.Sprintf("%s: audit Upstream keys %v, sub-stream members %v", j.kind, ks, as), desc)
@@ -489,4 +514,11 @@ func c18corners(c *chk.Ctx) {
 		c.Count("members_compared", j.n)
 		c.Nontrivial(fmt.Sprintf("corner|%s|%d|%d", j.kind, j.n, j.b))
 	})
+}
+
+func imin(a, b int) int {
+	if a < b {
+		return a
+	}
+	return b
 }
